@@ -73,8 +73,10 @@ class ModelExec(object):
             raise OutsideSubset("%s contains quadrature loops" % name)
         return ret
 
-    def run_fn(self, name, args):
+    def run_fn(self, name, args, safety=None):
         ex = self.new_ex()
+        if safety is not None:
+            ex.safety = safety
         ret, _ = ex.call_function(name, args)
         return ret, getattr(ex, "sigma_defs", {})
 
